@@ -164,7 +164,11 @@ def shape_geoms():
     return {(1, 1): [('par2d', T.Parallel2dGeometry(ap, d1, det_pos_init=(3, 4))),
                      ('fan', T.FanBeamGeometry(ap, d1, 5, 3, src_to_det_init=(3, 4), translation=(1, -2)))],
             (1, 2): [('par3dax', T.Parallel3dAxisGeometry(ap, d2, axis=(2, 2, 1))),
-                     ('cone', T.ConeBeamGeometry(ap, d2, 5, 3, axis=(2, 2, 1), pitch=2.0))],
+                     ('cone', T.ConeBeamGeometry(ap, d2, 5, 3, axis=(2, 2, 1), pitch=2.0)),
+                     ('cone-cyl', T.ConeBeamGeometry(ap, odl.uniform_partition([-1, -2], [1, 2], (8, 4)), 5, 3,
+                                                     det_curvature_radius=(8, None))),
+                     ('cone-sph', T.ConeBeamGeometry(ap, odl.uniform_partition([-1, -1], [1, 1], (8, 8)), 5, 3,
+                                                     det_curvature_radius=(8, 8)))],
             (3, 2): [('par3deu', T.Parallel3dEulerGeometry(ap3, d2))]}
 
 
@@ -188,9 +192,11 @@ def shape_events(cases, geoms):
             darrs = [arr_of(s, v) for s, v in zip(c['ds'], dvals)]
             mp = tuple(marrs) if ar[0] > 1 else marrs[0]
             dp = tuple(darrs) if ar[1] > 1 else darrs[0]
+            det = 'curved' if '-' in cls else 'flat'
+            cls = cls.split('-')[0]
             calls = [('detpt', lambda: geom.det_point_position(mp, dp)),
                      ('d2s', lambda: geom.det_to_src(mp, dp))]
-            key = (cls, json.dumps(c['ms']))
+            key = (cls, det, json.dumps(c['ms']))
             if key not in seen_m:
                 seen_m.add(key)
                 calls += [('rot', lambda: geom.rotation_matrix(mp)), ('ref', lambda: geom.det_refpoint(mp)),
@@ -210,7 +216,7 @@ def shape_events(cases, geoms):
                 else:
                     tail = {'rot': [nd, nd], 'axes': [nd] if nd == 2 else [2, 3]}.get(q, [nd])
                     exp = c['mexp'] if c['mexp'] == [-1] else c['mexp'] + tail
-                out.append(({'k': 'shape', 'cls': cls, 'q': q, 'nd': nd, 'ms': c['ms'], 'ds': c['ds'], 'obs': obs},
+                out.append(({'k': 'shape', 'cls': cls, 'det': det, 'q': q, 'nd': nd, 'ms': c['ms'], 'ds': c['ds'], 'obs': obs},
                             {'exc': exc, 'exp': exp}))
     return out
 
@@ -280,13 +286,23 @@ def corner_excess(geom, space, horizontal_only=False):
     return [int(max(-G.LIM, min(G.LIM, round(x * 2 ** 20)))) for x in worst]
 
 
+# volumes: centred, off-centre, and asymmetric ones whose farthest (x, y) corner has every sign pattern
+# (-,+), (+,-), (-,-), (+,+) -- i.e. is a "mixed" corner or the min / max corner of the domain; 2-d and 3-d
 FACTORY_SPACES = {
     '2d-centred': ([-1, -1], [1, 1], (8, 8)),
     '2d-offcentre': ([0, -1], [3, 1], (12, 8)),
     '2d-anisotropic': ([-2, -1], [2, 1], (8, 8)),
+    '2d-far-mp': ([-2, -0.5], [0.5, 2], (10, 10)),
+    '2d-far-pm': ([-0.5, -2], [2, 0.5], (10, 10)),
+    '2d-far-mm': ([-2, -2], [0.5, 0.5], (10, 10)),
+    '2d-far-pp': ([-0.5, -0.5], [2, 2], (10, 10)),
     '3d-centred': ([-1, -1, -1], [1, 1, 1], (8, 8, 8)),
     '3d-offcentre': ([-1, 0, -2], [1, 2, 1], (8, 8, 6)),
     '3d-flat': ([-2, -2, -0.5], [2, 2, 0.5], (8, 8, 2)),
+    '3d-far-mp': ([-2, -0.5, -1], [0.5, 2, 0.5], (10, 10, 6)),
+    '3d-far-pm': ([-0.5, -2, -0.5], [2, 0.5, 1.5], (10, 10, 8)),
+    '3d-far-mm': ([-2, -2, 0], [0.5, 0.5, 1], (10, 10, 4)),
+    '3d-far-pp': ([-0.5, -0.5, -1], [2, 2, 0], (10, 10, 4)),
 }
 
 
@@ -294,27 +310,44 @@ def factory_cases(quick):
     cases = []
     for sname in FACTORY_SPACES:
         three = sname.startswith('3d')
+        far = '-far-' in sname
         cases.append(('parallel_beam_geometry', sname, {}))
         cases.append(('parallel_beam_geometry', sname, {'num_angles': 5}))
         for rs, rd in [(5.0, 3.0), (8.0, 0.5)] + ([] if quick else [(6.0, 10.0), (20.0, 20.0)]):
             cases.append(('cone_beam_geometry', sname, {'src_radius': rs, 'det_radius': rd}))
-            cases.append(('cone_beam_geometry', sname, {'src_radius': rs, 'det_radius': rd, 'short_scan': True,
-                                                        'num_angles': 9}))
+            if not (quick and far and rs != 5.0):
+                cases.append(('cone_beam_geometry', sname, {'src_radius': rs, 'det_radius': rd, 'short_scan': True,
+                                                            'num_angles': 9}))
             if three:
                 cases.append(('helical_geometry', sname, {'src_radius': rs, 'det_radius': rd, 'num_turns': 2}))
     return cases
+
+
+def small_q(v, maxden=4096, maxnum=10 ** 6):
+    """Exact rational of an observed number if it is one with a small denominator, else the off-lattice token."""
+    q = G.snap_ld(v)
+    if q is None or q.denominator > maxden or abs(q.numerator) > maxnum:
+        return G.OFFQ
+    return [int(q.numerator), int(q.denominator)]
 
 
 def factory_event(fac, sname, kw):
     import odl.tomo as T
     lo, hi, shp = FACTORY_SPACES[sname]
     space = odl.uniform_discr(lo, hi, shp)
-    ev = {'k': 'cover', 'fac': fac, 'space': sname, 'exc': [], 'err': ''}
+    # inputs for the exact extent clause: ALL corners of the volume (rational), the radii, and the observed half
+    # width of the (origin-centred) detector, squared
+    corners = [[Q(Fraction(float(x))) for x in c] for c in space.domain.corners()]
+    ev = {'k': 'cover', 'fac': fac, 'space': sname, 'exc': [], 'err': '', 'corners': corners,
+          'rs': Q(Fraction(kw.get('src_radius', 0))), 'rd': Q(Fraction(kw.get('det_radius', 0))), 'w2': G.OFFQ}
     info = {'kwargs': kw}
     try:
         geom = getattr(T, fac)(space, **kw)
         ev['exc'] = corner_excess(geom, space, horizontal_only=(fac == 'helical_geometry'))
-        info['det'] = [np.atleast_1d(geom.det_partition.min_pt).tolist(), np.atleast_1d(geom.det_partition.max_pt).tolist()]
+        lo_d = np.atleast_1d(geom.det_partition.min_pt)
+        hi_d = np.atleast_1d(geom.det_partition.max_pt)
+        ev['w2'] = small_q(min(-lo_d[0], hi_d[0]) ** 2)
+        info['det'] = [lo_d.tolist(), hi_d.tolist()]
         info['num_angles'] = len(geom.angles)
     except Exception as e:
         ev['err'] = type(e).__name__
@@ -523,7 +556,8 @@ def rank_class(ev):
 
 def shape_sig(ev, clause):
     ranks, group = rank_class(ev)
-    return {'cls': ev['cls'], 'form': 'array-parameters', 'clause': clause, 'ranks': ranks, 'mixed_group': group}
+    return {'cls': ev['cls'], 'det': ev.get('det', 'flat'), 'form': 'array-parameters', 'clause': clause, 'ranks': ranks,
+            'mixed_group': group}
 
 
 def report_event(ctx, seen, ev, info, clause, tlc=None):
@@ -691,7 +725,7 @@ def run(ctx):
 
     # ---- 4. random driver ----
     rnd = random.Random(ctx.seed * 7919 + 19)
-    nrand = 1500 if quick else 15000
+    nrand = 1000 if quick else 15000
     for i in range(nrand):
         g, a, u = random_case(rnd)
         form = rnd.choice(['scalar', 'vector', 'bcast'] + (['slice'] if g['cls'] in SLICEABLE else []))
@@ -707,7 +741,7 @@ def run(ctx):
     t_sec = time.time()
 
     # ---- 5. TLC trace validation (chunks, in parallel) ----
-    chunk = 1000
+    chunk = 800
     files = []
     for ci in range(0, len(events), chunk):
         p = os.path.join(work, 'trace_%d.ndjson' % (ci // chunk))
@@ -793,7 +827,8 @@ def replay(body):
         e = d['event']
         got = shape_events([{'ar': [len(e['ms']), len(e['ds'])], 'ms': e['ms'], 'ds': e['ds'], 'exp': d['expected'],
                              'mexp': d['expected']}], shape_geoms())
-        got = [x for x in got if x[0]['cls'] == e['cls'] and x[0]['q'] == e['q']]
+        got = [x for x in got if x[0]['cls'] == e['cls'] and x[0]['q'] == e['q'] and
+               x[0].get('det', 'flat') == e.get('det', 'flat')]
         print('shape case:', dumps(e), 'expected', d['expected'], 'observed now', got[0][0]['obs'], got[0][1]['exc'])
         ok = got[0][0]['obs'] == d['expected']
     else:
